@@ -1146,21 +1146,24 @@ theorem paid_accept_charge (f : Fixes) (s s' : HostState) (r : PaidReq) (hrpc : 
 contracts / revisions in its last transaction, every renter key and signature length and every output
 count of the clearing revision and of the renewed contract, each index and each slice→array conversion
 of `handleRPCRenew` (and of the validators it calls) sits behind a guard that makes it legal. -/
-theorem slices_in_bounds_renew3 (r : RenewReq) : Safe (renew3Steps r) := by
-  simp only [renew3Steps, clearingSteps, contractSteps, revSigSteps, Safe, List.cons_append, List.nil_append,
-    decide_eq_true_eq, Bool.and_eq_true, ne_eq]
+theorem slices_in_bounds_renew3 (f : Fixes) (r : RenewReq) : Safe (renew3Steps f r) := by
+  cases hw : f.windowEndFits <;>
+  simp only [renew3Steps, storableGuard, hw, clearingSteps, contractSteps, revSigSteps, Safe, List.cons_append, List.nil_append,
+    decide_eq_true_eq, Bool.and_eq_true, ne_eq, if_true, if_false, Bool.false_eq_true] <;>
   safe_auto
 
 /-- **slices_in_bounds (RHP2 RPCRenewAndClearContract).** -/
-theorem slices_in_bounds_renew2 (r : RenewReq) : Safe (renew2Steps r) := by
-  simp only [renew2Steps, clearingSteps, contractSteps, Safe, List.cons_append, List.nil_append,
-    decide_eq_true_eq, Bool.and_eq_true, ne_eq]
+theorem slices_in_bounds_renew2 (f : Fixes) (r : RenewReq) : Safe (renew2Steps f r) := by
+  cases hw : f.windowEndFits <;>
+  simp only [renew2Steps, storableGuard, hw, clearingSteps, contractSteps, Safe, List.cons_append, List.nil_append,
+    decide_eq_true_eq, Bool.and_eq_true, ne_eq, if_true, if_false, Bool.false_eq_true] <;>
   safe_auto
 
 /-- **slices_in_bounds (RHP2 RPCFormContract, with the key-length check of 1ee75c4).** -/
 theorem slices_in_bounds_form2 (f : Fixes) (hf : f.v2FormKeyLen = true) (r : RenewReq) : Safe (form2Steps f r) := by
-  simp only [form2Steps, contractSteps, revSigSteps, hf, if_true, Safe, List.cons_append, List.nil_append,
-    decide_eq_true_eq, Bool.and_eq_true, ne_eq]
+  cases hw : f.windowEndFits <;>
+  simp only [form2Steps, storableGuard, hw, contractSteps, revSigSteps, hf, if_true, if_false, Bool.false_eq_true, Safe, List.cons_append, List.nil_append,
+    decide_eq_true_eq, Bool.and_eq_true, ne_eq] <;>
   safe_auto
 
 /-- **no_panic (renewal and formation handlers).** -/
@@ -1168,29 +1171,33 @@ theorem renew_no_panic (f : Fixes) (hf : f.v2FormKeyLen = true) (k : RenewKind) 
     (renew f k s r).1 ≠ .panic site := by
   have hsafe : Safe (renewSteps f k r) := by
     cases k
-    · exact slices_in_bounds_renew3 r
-    · exact slices_in_bounds_renew2 r
+    · exact slices_in_bounds_renew3 f r
+    · exact slices_in_bounds_renew2 f r
     · exact slices_in_bounds_form2 f hf r
   unfold renew
   split
   · rename_i s' heq; exact absurd heq (run_no_panic _ hsafe _ s')
   · simp
-  · simp
+  · split <;> simp
 
 /-- **reject_noop (renewal and formation).**  A rejected renewal or formation leaves revision, sector
 roots and balance of the contract exactly as they were. -/
 theorem renew_reject_noop (f : Fixes) (k : RenewKind) (s s' : HostState) (r : RenewReq)
     (h : renew f k s r = (.reject, s')) : s' = s := by
   unfold renew at h
-  split at h <;> simp at h
-  exact h.symm
+  split at h
+  · simp at h
+  · simp at h; exact h.symm
+  · split at h <;> simp at h
 
 /-- an accepted request passed every guard: in particular the renter key is an ed25519 key of exactly 32 bytes
 and the revision signature has exactly 64 bytes (the conversions cannot be reached otherwise) -/
 theorem renew3_accept_key (f : Fixes) (s s' : HostState) (r : RenewReq) (h : renew f .renew3 s r = (.accept, s')) :
     r.algOk = true ∧ r.keyLen = 32 ∧ r.txns ≠ 0 ∧ r.fcs = 1 ∧ r.revs = 1 := by
   unfold renew at h
-  split at h <;> simp at h
+  split at h
+  · simp at h
+  · simp at h
   rename_i a heq
   simp only [renewSteps, renew3Steps, List.cons_append, run] at heq
   by_cases h1 : r.readable = true <;> simp [h1] at heq
@@ -1303,5 +1310,77 @@ example :
       { budget := 500, initCost := 1, hasContract := true, pdLen := SectorSize + 16, rd := rdOf [(SectorSize, 0), (SectorSize + 8, 9)],
         prog := [ { i := .appendSector 0 false, cost := 100, storage := 60, cstorage := 60 }, { i := .swapSector SectorSize (SectorSize + 8) false, cost := 7 } ] }
       = (.failed 1 [some 0], { rev := 6, roots := [1, 2, 3], balance := 1000 - (1 + 100 + 7 - 60) }) := by decide
+
+/-! ## 11. a rejected renewal / formation has not been broadcast -/
+
+/-- a run that passes has passed every guard on its way -/
+theorem run_pass_guards (l : List Step) : ∀ (a a' : Acc), run a l = .pass a' → ∀ g, Step.guard g ∈ l → g = true := by
+  induction l with
+  | nil => intro a a' _ g hg; simp at hg
+  | cons st r ih =>
+    intro a a' h g hg
+    cases st with
+    | guard ok =>
+      cases ok with
+      | true =>
+        simp only [run, if_true] at h
+        rcases List.mem_cons.mp hg with hg | hg
+        · injection hg
+        · exact ih a a' h g hg
+      | false => simp [run] at h
+    | slice lo hi cap site =>
+      simp only [run] at h
+      split at h
+      · rcases List.mem_cons.mp hg with hg | hg
+        · cases hg
+        · exact ih a a' h g hg
+      · simp at h
+    | need ok site =>
+      cases ok with
+      | true =>
+        simp only [run, if_true] at h
+        rcases List.mem_cons.mp hg with hg | hg
+        · cases hg
+        · exact ih a a' h g hg
+      | false => simp [run] at h
+    | mul p n site =>
+      simp only [run] at h
+      split at h
+      · rcases List.mem_cons.mp hg with hg | hg
+        · cases hg
+        · exact ih a a' h g hg
+      · simp at h
+    | pay c st =>
+      simp only [run] at h
+      split at h
+      · rcases List.mem_cons.mp hg with hg | hg
+        · cases hg
+        · exact ih _ a' h g hg
+      · simp at h
+
+/-- **reject_noop (broadcast).**  With the window-end check in the handlers, a renewal or formation is never
+answered with an error after its transaction set went to the pool: whatever is broadcast is also recorded. -/
+theorem renew_no_reject_after_broadcast (f : Fixes) (hw : f.windowEndFits = true) (k : RenewKind) (s : HostState) (r : RenewReq) :
+    (renew f k s r).1 ≠ .rejectBroadcast := by
+  unfold renew
+  split
+  · simp
+  · simp
+  · rename_i a heq
+    have hmem : Step.guard r.storable ∈ renewSteps f k r := by
+      cases k <;> simp [renewSteps, renew3Steps, renew2Steps, form2Steps, storableGuard, hw]
+    have hst : r.storable = true := run_pass_guards _ _ _ heq _ hmem
+    simp [hst]
+
+/-- the handlers as written: an empty contract renewed (or a contract formed) with `WindowEnd = 2^64-1` passes every
+validator (no file size, so no base cost), the transaction set is broadcast, and `RenewContract`/`AddContract`
+then fails in the store ("uint64 values with high bit set are not supported"): the renter gets an error, the host
+keeps the old contract, the chain gets the renewal -/
+theorem renew_reject_after_broadcast_witness :
+    (renew { Fixes.all with windowEndFits := false } .renew3 { rev := 6, roots := [], balance := 10 } { storable := false }).1 = .rejectBroadcast := by
+  decide
+
+example : (renew Fixes.all .renew3 { rev := 6, roots := [], balance := 10 } { storable := false }).1 = .reject := by decide
+example : (renew Fixes.all .form2 { rev := 6, roots := [], balance := 10 } { storable := false }).1 = .reject := by decide
 
 end Hostd.Mdm
